@@ -238,7 +238,11 @@ MANIFEST = {
                    "assignment), for all ensemble sizes, failure masks, value vectors, windows and weight vectors; the model is tied to the code "
                    "on every run by an in-Coq correspondence (exhaustive small-n enumeration over permutations x masks x windows, sampled "
                    "larger ensembles, function level and through EnsembleEvaluator.calculate)."),
-    "level_note": "see Props/C05.v; filled in by the final MANIFEST text below",
+    "level_note": ("Proved: the theorems of Props/C05.v (rank-window characterisation robust to ties, failed never ranked, empty window => "
+                   "TOO_FEW_REALIZATIONS, range rejection at configuration time, each filter's row applied to exactly the functions mapped to it), all "
+                   "'Closed under the global context'.  Trusted / modelled, not verified: np.argsort (any order consistent with the keys; end-to-end "
+                   "cases whose filter ranks tied values are judged by the tie-robust oracle only), pydantic option validation; Coq kernel + VM; "
+                   "the Python drivers."),
     "technique": "Coq proof (induction over lists, sorting facts) on an executable Gallina model + in-Coq differential correspondence with the real filter code",
     "design_ref": "DESIGN.md section 4, C05",
 }
